@@ -61,6 +61,8 @@ structure HTarget where
 structure HSt where
   ms : MState
   targets : List HTarget
+  /-- code arenas of the harness (base, length): memory the library never allocated -/
+  arenas : List (Nat × Nat) := []
   /-- target index ↦ value a call must return now (newest first) -/
   latest : List (Nat × Nat) := []
   named : List Nat := []
@@ -102,6 +104,19 @@ def initMem (ts : List HTarget) : Mem := fun x =>
   | none => 0xCC
 
 def slotsOf (m : Mem) (ts : List HTarget) : List (List Nat) := ts.map (fun t => readMem m t.addr 16)
+
+def parseArena (t : String) : Option (Nat × Nat) :=
+  if t.startsWith "AR=" then
+    match ((t.drop 3).toString.splitOn ":") with
+    | [a, l] => do let a ← parseHex a; let l ← parseHex l; pure (a, l)
+    | _ => none
+  else none
+
+/-- a `munmap` of a range the library did not map itself that overlaps known code -/
+def foreignUnmapHitsCode (arenas : List (Nat × Nat)) (evs : List Ev) : Bool :=
+  evs.any fun e => match e with
+    | Ev.U a l false => arenas.any (fun (b, n) => decide (a < b + n) && decide (b < a + (max l 1 + 4095) / 4096 * 4096))
+    | _ => false
 
 def parseSlots (s : String) : Option (List (List Nat)) := (s.splitOn ",").mapM parseBytes
 
@@ -208,6 +223,7 @@ def doInstall (s : HSt) (hdr obs : List String) : HSt := Id.run do
         if !flushCovers evs tgt.addr (slot.take g.patchLen) then s := s.fail "c17.entry-flush"
         -- C12: every munmap targets something the library mapped itself
         if evs.any (fun e => match e with | Ev.U _ _ o => !o | _ => false) then s := s.fail "c12.foreign-munmap"
+        if foreignUnmapHitsCode s.arenas evs then s := s.fail "c03.unmapped-foreign-code"
         s := checkAfter s obs "install"
       | none => s := s.disagree "install:model-panics"
     | _ => s := s.disagree "install:alloc-model"
@@ -265,8 +281,9 @@ def handleHist (toks : List String) : Verdict := Id.run do
   | hdr :: ops =>
     let mode := if hdr.head? == some "d" then Mode.debug else Mode.release
     let targets := (hdr.drop 1).filterMap parseTarget
+    let arenas := (hdr.drop 1).filterMap parseArena
     let ms0 : MState := { mem := initMem targets, writable := fun _ => false, maps := [], guards := [], log := [], fault := false }
-    let mut s : HSt := { ms := ms0, targets := targets, mode := mode }
+    let mut s : HSt := { ms := ms0, targets := targets, arenas := arenas, mode := mode }
     if targets.isEmpty && !(ops.any (fun o => o.head? == some "CRASH")) then return bad "no-targets"
     for op in ops do
       match op with
